@@ -98,13 +98,14 @@ def _drive_files(args):
 
 
 def _drive_ipm(args):
-    """IpmReader and the tools over mutated files: only the outcome class is judged here (C07)."""
+    """IpmReader and the tools over mutated files, recorded as Trace_Ipm traces: TLC judges every reader step against
+    the reading of the record (C07 owns the outcome-class clauses) and every tool run (must return)."""
     seed, lo, hi, wd = args
     from cardutil import mciipm
     from cardutil.cli import mci_ipm_to_csv, mideu
     import contextlib
-    bad = []
-    n = 0
+    from . import ipmc
+    out = []
     bc = PKG['bit_config']
     for tid in range(lo, hi):
         r = drv.rng(seed, 'c07ipm', tid)
@@ -120,21 +121,12 @@ def _drive_ipm(args):
             q = r.randrange(len(x))
             x[q] = r.choice((0x2d, 0x20, 0xff, 0x00, 0x60, 0x40, r.randrange(256)))
         data = bytes(x)
-        n += 1
-        try:
-            with drv.Watchdog(5.0):
-                for _ in mciipm.IpmReader(io.BytesIO(data), encoding=enc, blocked=blocked):
-                    pass
-        except BaseException as ex:  # noqa
-            o = drv.exc_outcome(ex)
-            if o['kind'] != 'liberr':
-                bad.append(('ipmreader-outcome-class:' + o['cls'], {'api': 'IpmReader', 'encoding': enc, 'blocked': blocked,
-                                                                  'file_hex': data.hex()[:600], 'observed': o}))
+        events = [ipmc.iev(1, 'given', b=data)] + ipmc.read_all_events(1, data, enc, bc, blocked)
         if tid % 6 == 0:
             path = os.path.join(wd, 'tool-%d-%d.ipm' % (os.getpid(), tid))
             open(path, 'wb').write(data)
             for tool in ('mci_ipm_to_csv', 'mideu'):
-                n += 1
+                e = ipmc.iev(1, 'tool', out='returned')
                 try:
                     with drv.Watchdog(8.0), contextlib.redirect_stdout(io.StringIO()):
                         if tool == 'mci_ipm_to_csv':
@@ -145,12 +137,18 @@ def _drive_ipm(args):
                                           no1014blocking=not blocked, csvoutputfile=path + '.csv')
                 except BaseException as ex:  # noqa
                     o = drv.exc_outcome(ex)
-                    bad.append(('tool-traceback:%s:%s' % (tool, o['cls']), {'tool': tool, 'encoding': enc, 'blocked': blocked,
-                                                                           'file_hex': data.hex()[:600], 'observed': o}))
+                    e['out'] = 'hang' if o['kind'] == 'hang' else 'exc'
+                    e['_observed'] = dict(o, tool=tool)
+                events.append(e)
             for p in (path, path + '.csv'):
                 if os.path.exists(p):
                     os.unlink(p)
-    return n, bad
+        for e in events:
+            e.pop('_exc', None)
+        out.append({'tid': tid, 'loc': False, 'strict': True, 'cols': [], 'insts': [{'blk': blocked}], 'events': events, '_enc': enc,
+                    '_desc': '%s %s IPM file of %d bytes (mutated) through IpmReader%s' % (enc, '1014' if blocked else 'vbs', len(data),
+                                                                                      ' and the CSV tools' if tid % 6 == 0 else '')})
+    return out
 
 
 def file_level(rep, wd, tier, seed):
@@ -163,11 +161,22 @@ def file_level(rep, wd, tier, seed):
         return key + (':' + o.get('cls', '') if payload.get('event_out') in ('exc', 'hang') else '')
     vbsc.validate(rep, wd, batches, 'vbsfile', keymap=keymap)
     outs = vbsc.parallel(_drive_ipm, [(seed, c[0], c[-1] + 1, wd) for c in chunks])
-    for k, bad in outs:
-        rep.replayed += k
-        for key, payload in bad:
-            rep.violation(key, payload)
-    rep.extra['ipmreader_and_tool_runs'] = sum(k for k, _ in outs)
+    from . import ipmc
+    groups = {}
+    for o in outs:
+        for t in o:
+            g = groups.setdefault(t['_enc'], [])
+            t['tid'] = len(g)
+            ev = t['events']
+            t['_key'] = ''
+            for e in ev:
+                if e['out'] in ('exc', 'hang') and e.get('_observed'):
+                    t['_key'] = ':' + str(e['_observed'].get('tool', 'IpmReader')) + ':' + str(e['_observed'].get('cls'))
+            g.append(t)
+    rep.extra['ipmreader_files'] = sum(len(g) for g in groups.values())
+    rep.extra['tool_runs'] = sum(1 for g in groups.values() for t in g for e in t['events'] if e['op'] == 'tool')
+    ipmc.validate(rep, wd, [(('pkg',), enc, ts) for enc, ts in groups.items()],
+                  lambda c: c.startswith('outcome-class-') or c.startswith('tool-did-not-return'), 'ipmfile', maxbatch=30)
 
 
 def run(rep, wd, tier, seed):
